@@ -286,7 +286,6 @@ func (w *world) answer(c *conn, remote *memnet.Conn) {
 	remote.Reset()
 }
 
-
 // newInbound creates (but does not deliver) an inbound connection of the given class.
 func (w *world) newInbound(p peer.ID, cls class, k int) *conn {
 	var sc *scripted.Conn
